@@ -21,6 +21,8 @@ impl ItemPairInfo {
         ensures r is Ok ==> final(s).pair_info == Some(*v), r is Err ==> final(s).pair_info == old(s).pair_info, final(s).config == old(s).config, final(s).commission == old(s).commission { unimplemented!() }
 }
 impl ItemCommission {
+    #[verifier::external_body] pub fn save(&self, s: &mut Storage, v: &Decimal256) -> (r: StdResult<()>)
+        ensures r is Ok ==> final(s).commission == Some(*v), r is Err ==> final(s).commission == old(s).commission, final(s).config == old(s).config, final(s).pair_info == old(s).pair_info { unimplemented!() }
     #[verifier::external_body] pub fn load(&self, s: &Storage) -> (r: StdResult<Decimal256>) ensures r is Ok ==> s.commission is Some && s.commission->Some_0 == r->Ok_0 { unimplemented!() }
 }
 pub const CONFIG: ItemConfig = ItemConfig { dummy: 0 };
@@ -28,3 +30,10 @@ pub const PAIR_INFO: ItemPairInfo = ItemPairInfo { dummy: 0 };
 pub const COMMISSION_RATE_INFO: ItemCommission = ItemCommission { dummy: 0 };
 pub struct DepsMut<'a> { pub storage: &'a mut Storage, pub api: &'a dyn Api, pub querier: QuerierWrapper }
 pub struct Deps<'a> { pub storage: &'a Storage, pub api: &'a dyn Api, pub querier: QuerierWrapper }
+// cw2::set_contract_version writes the version item only: ASSUMED not to touch the items modelled here
+#[verifier::external_body] pub fn set_contract_version(s: &mut Storage, name: &str, version: &str) -> (r: StdResult<()>) ensures *final(s) == *old(s) { unimplemented!() }
+pub const CONTRACT_NAME: &'static str = "crates.io:halo-pair";
+pub const CONTRACT_VERSION: &'static str = "1.0.0";
+pub const INSTANTIATE_REPLY_ID: u64 = 1;
+pub struct Cw20Coin { pub address: String, pub amount: Uint128 }
+pub struct MinterResponse { pub minter: String, pub cap: Option<Uint128> }
